@@ -102,6 +102,11 @@ func (h *OperationProvider) GetTxnOperations(t *txn.SidetreeTxn) ([]*operation.A
 		return nil, err
 	}
 
+	err = h.validateURI(anchorData.CoreIndexFileURI)
+	if err != nil {
+		return nil, errors.Wrapf(err, "core index URI")
+	}
+
 	cif, err := h.getCoreIndexFile(anchorData.CoreIndexFileURI, t.AlternateSources...)
 	if err != nil {
 		return nil, err
